@@ -214,13 +214,15 @@ static void parsec_info_object_array_constructor(parsec_object_t *obj)
 void parsec_info_object_array_init(parsec_info_object_array_t *oa, parsec_info_t *nfo, void *cons_obj)
 {
     oa->known_infos = nfo->max_id+1;
-    parsec_list_push_front(&nfo->ioa_list, &oa->list_item);
     if(oa->known_infos == 0)
         oa->info_objects = NULL;
     else
         oa->info_objects = calloc(oa->known_infos, sizeof(void*));
     oa->infos = nfo;
     oa->cons_obj = cons_obj;
+    /* Publish the array only once it is fully built: a concurrent
+     * parsec_info_unregister() walks ioa_list and dereferences info_objects. */
+    parsec_list_push_front(&nfo->ioa_list, &oa->list_item);
 }
 
 static void parsec_info_object_array_destructor(parsec_object_t *obj)
